@@ -25,6 +25,8 @@ def _checks():
         table.update(checks_cli.TABLE)
     except ImportError:
         pass
+    from . import models
+    table.update(models.TABLE)
     return table
 
 
